@@ -74,7 +74,11 @@ class ManifestContext:
 
         now = datetime.datetime.now(tz=UTC())
         if options.clockDrift:
-            now -= datetime.timedelta(seconds=options.clockDrift)
+            try:
+                now -= datetime.timedelta(seconds=options.clockDrift)
+            except OverflowError as err:
+                # the drifted time is outside of the range of datetime
+                raise ManifestNotAvailable(f'invalid clockDrift: {err}')
         self.minBufferTime = datetime.timedelta(seconds=1.5)
         self.manifest = manifest
         if multi_period:
@@ -97,6 +101,7 @@ class ManifestContext:
         timing: DashTiming | None = None
         if self.timing_ref is not None:
             timing = DashTiming(self.now, self.timing_ref, options)
+            self.check_stream_has_started(timing)
             self.mediaDuration = self.timing_ref.media_duration_timedelta().total_seconds()
 
         if multi_period:
@@ -201,6 +206,18 @@ class ManifestContext:
         # multi-period presentation is the sum of its Period durations
         self.mediaDuration = start
 
+    @staticmethod
+    def check_stream_has_started(timing: DashTiming) -> None:
+        """
+        There is nothing to put into the manifest of a live stream before
+        its availabilityStartTime
+        """
+        if (
+                timing.mode == 'live' and
+                timing.elapsedTime < datetime.timedelta(0)):
+            raise ManifestNotAvailable(
+                f'availabilityStartTime {timing.availabilityStartTime} is in the future')
+
     # largest number of Period elements in a live multi-period manifest
     MAX_LIVE_PERIODS: ClassVar[int] = 2000
 
@@ -214,6 +231,7 @@ class ManifestContext:
             segment_duration=1000,
             timescale=1000)
         timing = DashTiming(self.now, timing_ref, self.options)
+        self.check_stream_has_started(timing)
         oldest_frag = timing.availabilityStartTime + timing.firstAvailableTime
         num_loops = int(timing.firstAvailableTime.total_seconds() //
                         duration.total_seconds())
